@@ -394,6 +394,16 @@ def proxyLoop (ops : Ops) (reqHeader : Header) : Nat → Header → List Fwd
   | fails + 1, cur =>
     fwdOf (attemptHeader ops reqHeader cur) :: proxyLoop ops reqHeader fails (attemptHeader ops reqHeader cur)
 
+/-! ### requests on one connection (app.go `ConnContext`, `Server.ServeHTTP` per request)
+
+A connection carries a sequence of requests (HTTP/1.1 keep-alive, HTTP/2 streams).  The connection's context
+holds the `net.Conn` only; `PrepareRequest` runs for every request and builds a fresh vars table. -/
+
+/-- what each request of a connection is attributed: `PrepareRequest` per request, nothing carried over -/
+def serveConnection (N : Net Addr Prefix) (cfg : Cfg Prefix) (c : Conn) (reqs : List (List (Bytes × Bytes))) :
+    List Out :=
+  reqs.map (serve N cfg c)
+
 /-! ### templates' `httpInclude` (templates/tplcontext.go `funcHTTPInclude`): the virtual sub-request -/
 
 /-- `virtReq.RemoteAddr = "127.0.0.1:10000"` -/
